@@ -185,8 +185,10 @@ func state(g string) string {
 // busy reports the first goroutine that has a Havoc frame (or was created by Havoc code)
 // and is not parked in a blocking operation.
 func busy() string {
-	for _, g := range Goroutines() {
-		if !strings.Contains(g, "Havoc/") {
+	for i, g := range Goroutines() {
+		// the first block is the calling goroutine (it may itself be unwinding a panic that
+		// came out of teamserver code, with fixture cleanup running in a deferred call)
+		if i == 0 || !strings.Contains(g, "Havoc/") {
 			continue
 		}
 		if !parked[state(g)] {
@@ -206,6 +208,9 @@ func Quiesce() bool {
 			return true
 		}
 		if time.Now().After(dl) {
+			if os.Getenv("VERIF_SVCX_DEBUG") != "" {
+				fmt.Fprintf(os.Stderr, "svcx.Quiesce gave up; busy goroutine:\n%s\n", busy())
+			}
 			return false
 		}
 		time.Sleep(200 * time.Microsecond)
